@@ -1,5 +1,9 @@
 package main
 
+import (
+	"golang.org/x/tools/go/ssa"
+)
+
 func init() {
 	Register(&Property{
 		ID: "C13",
@@ -22,6 +26,15 @@ func runC13(c *Ctx) {
 		c.MP(fn, "success: previous state is a suffrage state (non-genesis)", succ, 1, genesis, GOk("isaac.NewSuffrageFromState(previousState)"))
 		c.MP(fn, "success: suffrage height is previous + 1 (non-genesis)", succ, 1, genesis,
 			GCmp("base.LoadSuffrageNodesStateValue(s.st)#0.Height()", "==", "(base.LoadSuffrageNodesStateValue(previousState)#0.Height() + 1)"))
+		c.MP(fn, "success: a previous state is given (non-genesis) — it is dereferenced", succ, 1, genesis, GNonNil("previousState"))
+		// every dereference of the previous state is behind the nil test
+		var derefs []ssa.Instruction
+		for _, in := range allInstrs(fn) {
+			if cc := callCommon(in); cc != nil && cc.IsInvoke() && c.D(cc.Value) == "previousState" {
+				derefs = append(derefs, in)
+			}
+		}
+		c.MP(fn, "previous state dereferenced only after the nil test", derefs, 2, GNonNil("previousState"))
 		notGenesis := GCmp("s.m.Manifest().Height()", "!=", "base.GenesisHeight")
 		c.MP(fn, "success: genesis proof has no previous state", succ, 1, notGenesis, GNil("previousState"))
 		c.MP(fn, "success: genesis proof has a genesis-height state", succ, 1, notGenesis, GCmp("s.st.Height()", "==", "base.GenesisHeight"))
